@@ -501,9 +501,52 @@ func runC01(c *Ctx) {
 		for g := range chRegion {
 			vcalls = append(vcalls, callsIn(g, func(call ssa.CallInstruction) bool { return calleeIs(call, x509Verify) })...)
 		}
+		// a named result kept in a cell (the function has a deferred closure): the one non-nil value stored into it
+		cellValue := func(v ssa.Value) ssa.Value {
+			ld, ok := v.(*ssa.UnOp)
+			if !ok || ld.Op != token.MUL {
+				return v
+			}
+			cell, ok := ld.X.(*ssa.Alloc)
+			if !ok || cell.Referrers() == nil {
+				return v
+			}
+			var val ssa.Value
+			n := 0
+			for _, r := range *cell.Referrers() {
+				switch x := r.(type) {
+				case *ssa.Store:
+					if x.Addr != ssa.Value(cell) || isNilK(x.Val) {
+						continue
+					}
+					if self, ok := x.Val.(*ssa.UnOp); ok && self.Op == token.MUL && self.X == ssa.Value(cell) {
+						continue // `return cert, err` with named results stores the cell into itself
+					}
+					n++
+					val = x.Val
+				case *ssa.MakeClosure:
+					// a closure may only clear the cell (store nil) — checked through its free variable
+					fn, _ := x.Fn.(*ssa.Function)
+					for i, b := range x.Bindings {
+						if b != ssa.Value(cell) || fn == nil || i >= len(fn.FreeVars) {
+							continue
+						}
+						for _, fr := range *fn.FreeVars[i].Referrers() {
+							if st, ok := fr.(*ssa.Store); ok && st.Addr == ssa.Value(fn.FreeVars[i]) && !isNilK(st.Val) {
+								n += 2
+							}
+						}
+					}
+				}
+			}
+			if n == 1 {
+				return val
+			}
+			return v
+		}
 		for _, vc := range vcalls {
 			a := append([]ssa.Value(nil), vc.Common().Args...)
-			a[0] = resolve(a[0])
+			a[0] = cellValue(resolve(a[0]))
 			// receiver parsed from param 0
 			recvOK := false
 			if ex, ok := a[0].(*ssa.Extract); ok {
@@ -543,7 +586,7 @@ func runC01(c *Ctx) {
 					if k, isK := ret.Results[0].(*ssa.Const); isK && k.Value == nil {
 						continue
 					}
-					if ret.Results[0] != a[0] {
+					if cellValue(ret.Results[0]) != a[0] {
 						retOK = false
 					}
 				}
